@@ -58,6 +58,15 @@ CHECKS: dict[str, dict[str, str]] = {
         "technique": "TLA+ transcription of the BIP173/350 reference decoder, Base58Check and address templates; TLC model checking + trace validation",
         "design_ref": "DESIGN.md section 4 C06",
     },
+    "C07": {
+        "text": ("TLC checks BIP32's laws (neuter/derive commutation, hardened-from-public refusal, parent recovery, refusal of an invalid child) "
+                 "on an abstract instantiation where the IL >= n and zero-child cases are reachable; at real size every extended key recorded from "
+                 "rootxprv_from_seed / derive (one call, every split, string spellings, from the public side) / xpub_from_xprv / fingerprint / "
+                 "derive_from_account / bip85 over seeds x paths with boundary indexes x BIP32 and SLIP132 versions x both arms is recomputed "
+                 "field by field by TLC (HMAC-SHA512 and secp256k1 written in TLA+)."),
+        "technique": "TLA+ BIP32 specification (HMAC-SHA512 + EC in TLA+); TLC model-checks the laws on an abstract group and validates recorded derivations",
+        "design_ref": "DESIGN.md section 4 C07",
+    },
     "C09": {
         "text": ("TLC checks the commitment matrix of the three algorithms on the specification (SigHashModel: digest changes iff the BIPs "
                  "say the hash type commits to the field, 810 combinations); digests recorded from every public route -- sig_hash.legacy / "
